@@ -205,5 +205,225 @@ Proof.
   intros q Rq Hq. cbn in Hq. unfold len, prog_of in Hq. rewrite Rq in Hq. cbn in Hq. discriminate.
 Qed.
 
-(* ... and nothing else: the content is the initial content followed by committed writers *)
+(* ... and nothing else: the content is the initial content followed by the committing
+   invocations that have finished, each exactly once, in the order they released the lock;
+   no reader, no unfinished writer and no invocation twice *)
+Definition log_exact (content : list nat) (s : st) : Prop :=
+  exists l, log s = content ++ l /\ NoDup l /\
+            (forall p, In p l <-> (role p = true /\ pos (procs s p) = len p)).
+
+Lemma NoDup_snoc (l : list nat) (p : nat) : NoDup l -> ~ In p l -> NoDup (l ++ [p]).
+Proof.
+  induction l as [|x l IH]; cbn; intros Hnd Hni; [constructor; [intros []|constructor]|].
+  inversion Hnd as [|? ? Hx Hl]; subst. constructor.
+  - rewrite in_app_iff. cbn. intros [H|[H|[]]]; [tauto|]. apply Hni. left. symmetry. exact H.
+  - apply IH; [exact Hl|]. intros H. apply Hni. right. exact H.
+Qed.
+
+Lemma unlock_iff_last p n : nth_error (prog_of role p) n = Some AUnlock <-> S n = len p.
+Proof.
+  unfold len, prog_of. destruct (role p).
+  - rewrite writer_prog_is. unfold writer_lit.
+    do 8 (destruct n as [|n]; [cbn; split; intros E; try discriminate E; try reflexivity; try lia|]).
+    cbn. split; intros E; [destruct n; discriminate E|lia].
+  - rewrite reader_prog_is. unfold reader_lit.
+    do 5 (destruct n as [|n]; [cbn; split; intros E; try discriminate E; try reflexivity; try lia|]).
+    cbn. split; intros E; [destruct n; discriminate E|lia].
+Qed.
+
+Lemma step_pos_other s p q : q <> p -> pos (procs (step role s p) q) = pos (procs s q).
+Proof.
+  intros Hne. unfold step. cbv zeta. destruct (nth_error _ _) as [[| f | f |]|]; cbn [procs];
+    try (rewrite updf_other by exact Hne); try reflexivity.
+  destruct (holder s); [destruct STORE_LOCK_EXCLUSIVE|]; cbn [procs]; try (rewrite updf_other by exact Hne); reflexivity.
+Qed.
+
+Lemma step_finished_stutters s p : pos (procs s p) = len p -> step role s p = s.
+Proof.
+  intros H. unfold step. cbv zeta.
+  assert (E : nth_error (prog_of role p) (pos (procs s p)) = None) by (apply nth_error_None; unfold len in H; lia).
+  rewrite E. reflexivity.
+Qed.
+
+(* the position of the stepping process: unchanged or one further *)
+Lemma step_pos_self s p :
+  pos (procs (step role s p) p) = pos (procs s p) \/
+  (pos (procs (step role s p) p) = S (pos (procs s p)) /\
+   exists a, nth_error (prog_of role p) (pos (procs s p)) = Some a /\
+             log (step role s p) = match a with AUnlock => if role p then log s ++ [p] else log s | _ => log s end).
+Proof.
+  unfold step. cbv zeta. destruct (nth_error (prog_of role p) (pos (procs s p))) as [a|] eqn:E; [|left; reflexivity].
+  destruct a as [| f | f |].
+  - destruct (holder s); [destruct STORE_LOCK_EXCLUSIVE; [left; reflexivity|]|];
+      right; cbn [procs log]; rewrite updf_same; cbn [pos]; (split; [reflexivity|eexists; split; [reflexivity|reflexivity]]).
+  - right; cbn [procs log]; rewrite updf_same; cbn [pos]; (split; [reflexivity|eexists; split; [reflexivity|reflexivity]]).
+  - right; cbn [procs log]; rewrite updf_same; cbn [pos]; (split; [reflexivity|eexists; split; [reflexivity|reflexivity]]).
+  - right; cbn [procs log]; rewrite updf_same; cbn [pos]; (split; [reflexivity|eexists; split; [reflexivity|reflexivity]]).
+Qed.
+
+Lemma step_log_same s p :
+  (nth_error (prog_of role p) (pos (procs s p)) = Some AUnlock /\ role p = true /\ log (step role s p) = log s ++ [p]) \/
+  ((nth_error (prog_of role p) (pos (procs s p)) <> Some AUnlock \/ role p = false) /\ log (step role s p) = log s).
+Proof.
+  unfold step. cbv zeta. destruct (nth_error (prog_of role p) (pos (procs s p))) as [a|] eqn:E.
+  - destruct a as [| f | f |].
+    + right. split; [left; discriminate|]. destruct (holder s); [destruct STORE_LOCK_EXCLUSIVE|]; reflexivity.
+    + right. split; [left; discriminate|reflexivity].
+    + right. split; [left; discriminate|reflexivity].
+    + cbn [log]. destruct (role p) eqn:R; [left; auto|right; auto].
+  - right. split; [left; discriminate|reflexivity].
+Qed.
+
+Lemma step_log_exact content s p : log_exact content s -> log_exact content (step role s p).
+Proof.
+  intros (l & Hl & Hnd & Hin).
+  destruct (Nat.eq_dec (pos (procs s p)) (len p)) as [Hfin|Hnf].
+  { rewrite (step_finished_stutters s p Hfin). exists l. auto. }
+  assert (Hnotin : ~ In p l) by (intros Hp; apply Hin in Hp; tauto).
+  destruct (step_log_same s p) as [(E & R & HL)|(E & HL)].
+  - (* a committing invocation releases the lock: it is finished now and enters the list *)
+    exists (l ++ [p]). split; [rewrite HL, Hl, app_assoc; reflexivity|]. split; [apply NoDup_snoc; assumption|].
+    intros q. rewrite in_app_iff. destruct (Nat.eq_dec q p) as [->|Hne].
+    + split; [intros _|intros _; right; left; reflexivity]. split; [exact R|].
+      destruct (step_pos_self s p) as [Hs|(Hs & _)].
+      * exfalso. apply unlock_iff_last in E.
+        (* an unlock step always advances *)
+        unfold step in Hs. cbv zeta in Hs. apply unlock_iff_last in E. rewrite E in Hs. cbn [procs] in Hs.
+        rewrite updf_same in Hs. cbn [pos] in Hs. lia.
+      * rewrite Hs. apply unlock_iff_last. exact E.
+    + rewrite step_pos_other by exact Hne. rewrite Hin. split; [intros [H|[H|[]]]; [exact H|congruence]|intros H; left; exact H].
+  - (* any other step: nobody finishes as a committer *)
+    exists l. split; [rewrite HL; exact Hl|]. split; [exact Hnd|].
+    intros q. destruct (Nat.eq_dec q p) as [->|Hne]; [|rewrite step_pos_other by exact Hne; apply Hin].
+    split; [intros H; tauto|]. intros [R Hq]. exfalso.
+    destruct (step_pos_self s p) as [Hs|(Hs & _)]; [rewrite Hs in Hq; tauto|].
+    rewrite Hs in Hq. apply unlock_iff_last in Hq. destruct E as [E|E]; congruence.
+Qed.
+
+Theorem run_log_exact content sched s : log_exact content s -> log_exact content (run role sched s).
+Proof. revert s; induction sched as [|p sched IH]; intros s D; cbn; [exact D|]. apply IH. apply step_log_exact. exact D. Qed.
+
+(* the files contain exactly the commits: whenever the lock is free, each file is the initial
+   content followed by a duplicate-free list whose members are precisely the committing
+   invocations that have finished *)
+Theorem files_are_exactly_the_commits sched content f :
+  let s := run role sched (init content) in
+  holder s = None -> f < 3 ->
+  exists l, files s f = content ++ l /\ NoDup l /\
+            (forall p, In p l <-> (role p = true /\ pos (procs s p) = len p)).
+Proof.
+  intros s H Hf. unfold s in *.
+  destruct (run_log_exact content sched (init content)) as (l & Hl & Hnd & Hin).
+  { exists []. cbn. rewrite app_nil_r. split; [reflexivity|]. split; [constructor|]. intros p. split; [intros []|].
+    intros [R Hp]. unfold len, prog_of in Hp. rewrite R in Hp. cbn in Hp. discriminate. }
+  exists l. rewrite (quiescent_files_agree sched content f H Hf). auto.
+Qed.
+
+(* ---- every invocation saw a state of the serial history ---- *)
+(* what a process has read of file f is a prefix of the serial history: the log as it stood
+   when the process held the lock; later commits only append *)
+Definition reads_serial (s : st) : Prop :=
+  forall q f, f < 3 -> read_done (pos (procs s q)) f = true -> exists t, log s = snap (procs s q) f ++ t.
+
+Lemma step_procs_other s p q : q <> p -> procs (step role s p) q = procs s q.
+Proof.
+  intros Hne. unfold step. cbv zeta. destruct (nth_error _ _) as [[| f | f |]|]; cbn [procs];
+    try (rewrite updf_other by exact Hne); try reflexivity.
+  destruct (holder s); [destruct STORE_LOCK_EXCLUSIVE|]; cbn [procs]; try (rewrite updf_other by exact Hne); reflexivity.
+Qed.
+
+Lemma step_log_appends s p : exists t, log (step role s p) = log s ++ t.
+Proof.
+  destruct (step_log_same s p) as [(_ & _ & H)|(_ & H)]; rewrite H; [exists [p]; reflexivity|exists []; rewrite app_nil_r; reflexivity].
+Qed.
+
+(* where the reads stand in both programs *)
+Lemma read_position p n f : nth_error (prog_of role p) n = Some (ARead f) -> n = S f /\ f < 3.
+Proof.
+  unfold prog_of. destruct (role p).
+  - rewrite writer_prog_is. unfold writer_lit.
+    do 8 (destruct n as [|n]; [cbn; intros E; try discriminate E; inversion E; subst; lia|]).
+    cbn. intros E; destruct n; discriminate E.
+  - rewrite reader_prog_is. unfold reader_lit.
+    do 5 (destruct n as [|n]; [cbn; intros E; try discriminate E; inversion E; subst; lia|]).
+    cbn. intros E; destruct n; discriminate E.
+Qed.
+
+Lemma nonread_position p n a : nth_error (prog_of role p) n = Some a -> (forall f, a <> ARead f) -> n = 0 \/ 4 <= n.
+Proof.
+  unfold prog_of. destruct (role p).
+  - rewrite writer_prog_is. unfold writer_lit.
+    do 4 (destruct n as [|n]; [cbn; intros E Hn; inversion E; subst; try (left; reflexivity); exfalso; eapply Hn; reflexivity|]).
+    intros _ _. right. lia.
+  - rewrite reader_prog_is. unfold reader_lit.
+    do 4 (destruct n as [|n]; [cbn; intros E Hn; inversion E; subst; try (left; reflexivity); exfalso; eapply Hn; reflexivity|]).
+    intros _ _. right. lia.
+Qed.
+
+Lemma reader_is_holder s p f : inv s -> nth_error (prog_of role p) (pos (procs s p)) = Some (ARead f) -> files s f = log s.
+Proof.
+  intros [Ifree Iheld] E. destruct (read_position _ _ _ E) as [Hn Hf].
+  assert (Hlt : pos (procs s p) < len p) by (apply nth_error_Some; unfold len; congruence).
+  assert (Hnot : ~ outside s p) by (unfold outside; lia).
+  destruct (holder s) as [h|] eqn:Hh.
+  - destruct (Iheld h eq_refl) as [Hin Hout]. destruct (Nat.eq_dec p h) as [->|Hne]; [|exfalso; apply Hnot; apply Hout; exact Hne].
+    destruct Hin as (_ & Hfiles & _). rewrite (Hfiles f Hf). rewrite Hn.
+    assert (W : wrote (role h) (S f) f = false).
+    { unfold wrote. destruct (role h); [|reflexivity]. cbn [andb]. f3 f; reflexivity. }
+    rewrite W. reflexivity.
+  - exfalso. apply Hnot. apply (proj1 (Ifree eq_refl)).
+Qed.
+
+Lemma step_self_shape s p :
+  step role s p = s \/
+  exists a, nth_error (prog_of role p) (pos (procs s p)) = Some a /\
+            pos (procs (step role s p) p) = S (pos (procs s p)) /\
+            snap (procs (step role s p) p) =
+              match a with ARead f0 => updf (snap (procs s p)) f0 (files s f0) | _ => snap (procs s p) end.
+Proof.
+  unfold step. cbv zeta. destruct (nth_error (prog_of role p) (pos (procs s p))) as [a|] eqn:E; [|left; reflexivity].
+  destruct a as [| f | f |].
+  - destruct (holder s); [destruct STORE_LOCK_EXCLUSIVE; [left; reflexivity|]|];
+      right; eexists; (split; [reflexivity|]); cbn [procs]; rewrite updf_same; cbn [pos snap]; split; reflexivity.
+  - right; eexists; (split; [reflexivity|]); cbn [procs]; rewrite updf_same; cbn [pos snap]; split; reflexivity.
+  - right; eexists; (split; [reflexivity|]); cbn [procs]; rewrite updf_same; cbn [pos snap]; split; reflexivity.
+  - right; eexists; (split; [reflexivity|]); cbn [procs]; rewrite updf_same; cbn [pos snap]; split; reflexivity.
+Qed.
+
+Lemma step_reads_serial s p : inv s -> reads_serial s -> reads_serial (step role s p).
+Proof.
+  intros I RS q f Hf Hr. destruct (step_log_appends s p) as [t0 Ht0].
+  destruct (Nat.eq_dec q p) as [->|Hne].
+  2:{ rewrite step_procs_other in * by exact Hne. destruct (RS q f Hf Hr) as [t Ht]. exists (t ++ t0). rewrite Ht0, Ht, app_assoc. reflexivity. }
+  destruct (step_self_shape s p) as [Hst|(a & E & Hpos & Hsnap)].
+  { rewrite Hst in *. apply RS; assumption. }
+  rewrite Hpos in Hr. rewrite Hsnap. unfold read_done in Hr. apply Nat.leb_le in Hr.
+  assert (Keep : f + 2 <= pos (procs s p) -> exists t, log (step role s p) = snap (procs s p) f ++ t).
+  { intros Hr0. destruct (RS p f Hf) as [t Ht]; [unfold read_done; apply Nat.leb_le; exact Hr0|].
+    exists (t ++ t0). rewrite Ht0, Ht, app_assoc. reflexivity. }
+  destruct a as [| f0 | f0 |].
+  - apply Keep. destruct (nonread_position _ _ _ E ltac:(discriminate)); lia.
+  - destruct (read_position _ _ _ E) as [Hn Hf0]. destruct (Nat.eq_dec f f0) as [->|Hff].
+    + rewrite updf_same. rewrite (reader_is_holder s p f0 I E). exists t0. exact Ht0.
+    + rewrite updf_other by exact Hff. apply Keep. lia.
+  - apply Keep. destruct (nonread_position _ _ _ E ltac:(discriminate)); lia.
+  - apply Keep. destruct (nonread_position _ _ _ E ltac:(discriminate)); lia.
+Qed.
+
+Theorem run_reads_serial sched s : inv s -> reads_serial s -> reads_serial (run role sched s).
+Proof.
+  revert s; induction sched as [|p sched IH]; intros s I D; cbn; [exact D|].
+  apply IH; [apply step_inv; exact I|apply step_reads_serial; assumption].
+Qed.
+
+(* every invocation that got as far as reading a file read a state of the serial history: the
+   initial content followed by the first k commits, for some k — never a mixture, never a
+   state that no serial execution of the committing invocations passes through *)
+Theorem every_read_is_a_serial_state sched content q f :
+  let s := run role sched (init content) in
+  f < 3 -> f + 2 <= pos (procs s q) -> exists t, log s = snap (procs s q) f ++ t.
+Proof.
+  intros s Hf Hp. apply (run_reads_serial sched (init content)); [apply inv_init| |exact Hf|unfold read_done; apply Nat.leb_le; exact Hp].
+  intros p g _ Hr. cbn in Hr. unfold read_done in Hr. apply Nat.leb_le in Hr. lia.
+Qed.
 End Inv.
